@@ -430,6 +430,39 @@ inline std::vector<std::string> genElems(const ArgDef &a, int kind, int minN, in
   return e;
 }
 
+// Cuts an element sequence into uses (repeated key) and, for multi-value arguments, free words.
+// Cardinality: every use and every free word costs 1 (+1 per additional element), so the total cost equals the
+// number of elements whatever the cut.
+inline std::vector<Use> cutIntoUses(const ArgDef &a, int ai, const std::vector<std::string> &all, bool repeatOk) {
+  std::vector<Use> out;
+  size_t pos = 0;
+  while (pos < all.size()) {
+    size_t remaining = all.size() - pos;
+    size_t take = remaining;
+    if (pick(60)) take = *range<size_t>(1, remaining);
+    Use x;
+    x.arg = ai;
+    x.hasValue = true;
+    x.elems.assign(all.begin() + static_cast<long>(pos), all.begin() + static_cast<long>(pos + take));
+    pos += take;
+    // free words behind it
+    while (a.multiValue && pos < all.size() && pick(50)) {
+      // a free word cannot be attached to a key, so it must not look like a key or control character
+      if (all[pos].empty() || all[pos][0] == '-' || all[pos] == "(" || all[pos] == ")" || all[pos] == "!") break;
+      size_t t2 = *range<size_t>(1, all.size() - pos);
+      x.free.push_back(std::vector<std::string>(all.begin() + static_cast<long>(pos), all.begin() + static_cast<long>(pos + t2)));
+      pos += t2;
+    }
+    if (!repeatOk && pos < all.size()) {
+      if (a.multiValue && !x.free.empty()) x.free.back().insert(x.free.back().end(), all.begin() + static_cast<long>(pos), all.end());
+      else x.elems.insert(x.elems.end(), all.begin() + static_cast<long>(pos), all.end());
+      pos = all.size();
+    }
+    out.push_back(x);
+  }
+  return out;
+}
+
 // Builds a rule-obeying abstract line for cfg (the model has the last word: callers check evalModel()).
 inline Line genValidLine(const Config &c, const Profile &pf, int maxUses = 6) {
   const auto &sk = slotKinds();
@@ -529,38 +562,7 @@ inline Line genValidLine(const Config &c, const Profile &pf, int maxUses = 6) {
       if (all.empty()) continue;
       if (static_cast<int>(all.size()) < minTotal && (a.cardKind == CARD_EXACT || a.cardKind == CARD_RANGE || kind == K_TUPLE_ISI)) continue;
     }
-    // cut `all` into uses (repeated key) and free words
-    // cardinality counts: every use and every free word costs 1 (+1 per additional element) => total cost == number of elements
-    // (a use with k elements costs 1 + (k-1) = k), so any cut keeps the count.
-    size_t pos = 0;
-    bool firstUse = true;
-    bool repeatOk = !constrained.count(ai);   // arguments of any/one-of and of requires/excludes are used once
-    while (pos < all.size()) {
-      size_t remaining = all.size() - pos;
-      size_t take = remaining;
-      if (pick(60)) take = *range<size_t>(1, remaining);
-      Use x;
-      x.arg = ai;
-      x.hasValue = true;
-      x.elems.assign(all.begin() + static_cast<long>(pos), all.begin() + static_cast<long>(pos + take));
-      pos += take;
-      // free words behind it
-      while (a.multiValue && pos < all.size() && pick(50)) {
-        // a free word cannot be attached to a key, so it must not look like a key or control character
-        if (all[pos].empty() || all[pos][0] == '-' || all[pos] == "(" || all[pos] == ")" || all[pos] == "!") break;
-        size_t t2 = *range<size_t>(1, all.size() - pos);
-        x.free.push_back(std::vector<std::string>(all.begin() + static_cast<long>(pos), all.begin() + static_cast<long>(pos + t2)));
-        pos += t2;
-      }
-      if (!repeatOk && pos < all.size()) {
-        if (a.multiValue && !x.free.empty()) x.free.back().insert(x.free.back().end(), all.begin() + static_cast<long>(pos), all.end());
-        else x.elems.insert(x.elems.end(), all.begin() + static_cast<long>(pos), all.end());
-        pos = all.size();
-      }
-      line.push_back(x);
-      firstUse = false;
-    }
-    (void)firstUse;
+    for (auto &x : cutIntoUses(a, ai, all, !constrained.count(ai))) line.push_back(x);   // arguments of any/one-of and of requires/excludes are used once
   }
   (void)pf; (void)maxUses;
   return line;
@@ -571,15 +573,16 @@ struct SpellOptions {
   bool allowGroups = true, allowAbbrev = true, allowEq = true, allowGlue = true;
   bool canonical = false;       // all long keys (short if none), next-word values, no grouping
   bool withArgFile = false;
+  int doubledSepPercent = 8;
 };
 struct SpellStats { int abbrev = 0, eq = 0, glued = 0, grouped = 0, groupEndsInValue = 0, dashValue = 0, emptyValue = 0, endvalues = 0, doubledSep = 0; };
 
 inline bool needsAttach(const std::string &t) { return (!t.empty() && t[0] == '-') || t == "(" || t == ")" || t == "!"; }
 
-inline std::string joinList(const std::vector<std::string> &elems, char sep, SpellStats *ss, bool canonical) {
+inline std::string joinList(const std::vector<std::string> &elems, char sep, SpellStats *ss, bool canonical, int dblPercent = 8) {
   std::string t;
   for (size_t i = 0; i < elems.size(); ++i) {
-    if (i) { t += sep; if (!canonical && pick(8)) { t += sep; if (ss) ss->doubledSep++; } }   // empty tokens are ignored
+    if (i) { t += sep; if (!canonical && pick(dblPercent)) { t += sep; if (ss) ss->doubledSep++; } }   // empty tokens are ignored
     t += elems[i];
   }
   return t;
@@ -607,7 +610,7 @@ inline std::vector<std::string> spell(const Config &c, const Line &line, const S
       shortKey = a.shortKey; longKey = a.longKey;
       kind = sk[a.slot];
       optionalValue = a.optionalValue;
-      if (u.hasValue) text = (isScalar(kind) || u.rawValue) ? (u.elems.empty() ? "" : u.elems[0]) : joinList(u.elems, effectiveSep(a, kind), ss, so.canonical);
+      if (u.hasValue) text = (isScalar(kind) || u.rawValue) ? (u.elems.empty() ? "" : u.elems[0]) : joinList(u.elems, effectiveSep(a, kind), ss, so.canonical, so.doubledSepPercent);
     }
     // key form
     enum { SHORT, LONG } form = longKey.empty() ? SHORT : (!shortKey ? LONG : (so.canonical ? LONG : (pick(50) ? SHORT : LONG)));
@@ -655,7 +658,7 @@ inline std::vector<std::string> spell(const Config &c, const Line &line, const S
     lastWasMultiRun = false;
     if (u.arg >= 0) {
       const ArgDef &a = c.args[u.arg];
-      for (auto &fw : u.free) { w.push_back(joinList(fw, effectiveSep(a, sk[a.slot]), ss, so.canonical)); }
+      for (auto &fw : u.free) { w.push_back(joinList(fw, effectiveSep(a, sk[a.slot]), ss, so.canonical, so.doubledSepPercent)); }
       if (a.multiValue && isContainer(sk[a.slot])) lastWasMultiRun = true;
     }
     if (lastWasMultiRun && (c.flags & F_END_VALUES) && !so.canonical && pick(30)) { w.push_back("--endvalues"); if (ss) ss->endvalues++; }
